@@ -1,10 +1,10 @@
 -- Root of the NakenVerif library: models, specifications and property theorems.
 import NakenVerif.Props.C04
 import NakenVerif.Props.C12
--- import NakenVerif.Props.C01   -- temporarily out: model being updated to the fence fix
--- import NakenVerif.Props.C06   -- temporarily out: model being updated to the fence fix
--- import NakenVerif.Props.C07   -- temporarily out: model being updated to the fence fix
--- import NakenVerif.Props.C08   -- temporarily out: model being updated to the fence fix
+import NakenVerif.Props.C01
+import NakenVerif.Props.C06
+import NakenVerif.Props.C07
+import NakenVerif.Props.C08
 import NakenVerif.Props.C10
 import NakenVerif.Props.C11
 import NakenVerif.Props.C02
